@@ -39,12 +39,15 @@ def h_tags(m, ctx, name_lens, cont_lens, line_lens, le, order='permute', second_
     spec = TagSpec()
     lebytes = tuple(le)
     data = {'op': 'tags', 'le': list(lebytes), 'ops': []}
+    req = ['tags', list(lebytes)]
+    exp = []
     for i, (nl, cl) in enumerate(zip(name_lens, cont_lens)):
         name = ctx.fresh_bytes('n%d' % i, nl, NAME_ALPHA)
         cont = ctx.fresh_bytes('c%d' % i, cl, CONT_ALPHA)
         d1_ok(ctx, cont)
         data['ops'].append(['c', [b[1] for b in name]])
         r = it.call_mir(f_create, [RefV(cell), StrV(name)])
+        req.append('c:'); req.append([b[1] for b in name]); exp.append('ok' if r.idx == 0 else 'err')
         want = spec.create(ctx, name)
         if (r.idx == 0) != want:
             violation(ctx, 'tag create: verdict differs from the tag rules', dict(data, impl=(r.idx == 0), spec=want))
@@ -54,6 +57,7 @@ def h_tags(m, ctx, name_lens, cont_lens, line_lens, le, order='permute', second_
             continue
         data['ops'].append(['s', [b[1] for b in cont]])
         r = it.call_mir(f_store, [RefV(cell), StrV(cont)])
+        req.append('s:'); req.append([b[1] for b in cont]); exp.append('ok' if r.idx == 0 else 'err')
         w2 = spec.try_store(ctx, cont)
         if (r.idx == 0) != w2:
             violation(ctx, 'tag try_store: verdict differs', data)
@@ -65,6 +69,7 @@ def h_tags(m, ctx, name_lens, cont_lens, line_lens, le, order='permute', second_
         line = ctx.fresh_bytes('l%d' % li, ll, LINE_ALPHA)
         data['ops'].append(['i', [b[1] for b in line]])
         got = it.call_mir(f_inject, [RefV(cell), StrV(line), StrV(lebytes)])
+        req.append('i:'); req.append([b[1] for b in line]); exp.append(list(b if isinstance(b, int) else b[1] for b in got.b))
         want = spec.inject(ctx, line, lebytes)
         if len(spec.stored) < sum(1 for _ in name_lens):
             ctx.cover('substituted')
@@ -73,6 +78,7 @@ def h_tags(m, ctx, name_lens, cont_lens, line_lens, le, order='permute', second_
         if bool(h) != spec.has_tags():
             violation(ctx, 'has_tags differs after inject (a used tag must be gone, an unused one must remain)', data)
     ctx.notes['ops'] = len(data['ops'])
+    ctx.notes['native_check'] = {'kind': 'line', 'request': req, 'expect': exp}
 
 
 def h_rle(m, ctx, n, le, force):
@@ -94,6 +100,10 @@ def h_rle(m, ctx, n, le, force):
 
 
 H = 'props.c14'
+
+
+def validate_samples(native, samples):
+    return validate_tag_samples(native, samples)
 
 
 def jobs(tier):
@@ -171,3 +181,32 @@ def replay(native, v):
             exp.append('true' if spec.has_tags() else 'false')
     out = native.ask(' '.join(req))
     return out != ' '.join(exp), {'request': ' '.join(req), 'native': out, 'spec': ' '.join(exp)}
+
+
+def validate_tag_samples(native, samples):
+    """replay sampled tag paths through the native TagState (the tags protocol glues op prefixes to hex payloads)"""
+    from .common import _lookup
+    ok_n, bad = 0, []
+    for smp in samples:
+        nc = (smp.get('notes') or {}).get('native_check')
+        if not nc:
+            continue
+        try:
+            def conc(t):
+                return bytes(x if isinstance(x, int) else _lookup(smp['model'], x) for x in t)
+            req = nc['request']
+            parts = ['tags', hexs(conc(req[1]))]
+            i = 2
+            while i < len(req):
+                parts.append(req[i] + conc(req[i + 1]).hex())
+                i += 2
+            exp = ' '.join(e if isinstance(e, str) else hexs(conc(e)) for e in nc['expect'])
+            got = native.ask(' '.join(parts))
+            # the native protocol prints has_tags only when asked; compare the common prefix of results
+            if got == exp:
+                ok_n += 1
+            else:
+                bad.append('%s -> native %s, interpreter %s' % (' '.join(parts), got, exp))
+        except KeyError:
+            continue
+    return ok_n, bad
